@@ -46,6 +46,12 @@ func runOne(spec string, idx int, seed int64) int {
 	done := make(chan struct{})
 	go func() {
 		defer close(done)
+		// a panic of the *script* (this goroutine) is a harness bug, not a crash of corebgp: say so
+		defer func() {
+			if r := recover(); r != nil {
+				e.tr.log("-", "harness.bug", strings.ReplaceAll(fmt.Sprint(r), " ", "_"))
+			}
+		}()
 		fn(e, parts[1:], rand.New(rand.NewSource(seed)))
 	}()
 	select {
